@@ -8,8 +8,8 @@ import (
 	"strings"
 	"text/scanner"
 
-	vh "github.com/basecomplextech/spec/internal/lang/zz_vharness"
 	"github.com/basecomplextech/spec/internal/lang/syntax"
+	vh "github.com/basecomplextech/spec/internal/lang/zz_vharness"
 	"github.com/basecomplextech/spec/zzverif/seqmc/vlib"
 )
 
